@@ -276,6 +276,12 @@ def run(ctx, report):
     from .c04 import stack_operand_rule
     stack_operand_rule(ctx, R6, L, L.sem)
 
+    # ---------------------------------------------------------------- D8 flags a masked-zero count keeps are inputs of the instruction (shared with C04.D10)
+    R8 = report.rule('C08.D8', 'a shift or rotate whose count (cl or imm8) masked to five bits is 0 keeps every flag: the lifted assignments carry the old flag values through '
+                     '(so the old flags are in the read set), evaluated for counts 0, 0x20, 0x40, 0xE0 in cl and as immediate', floor=100)
+    from .c04 import count_zero_rule
+    count_zero_rule(ctx, R8, L, L.sem)
+
     # ---------------------------------------------------------------- D7 the repeat count of a rep-prefixed string instruction
     R7 = report.rule('C08.D7', 'the lifted list of a rep-prefixed string instruction reads and writes the count register the address size selects, for every string instruction under F2 or F3 (predicate and count evaluated)', floor=6)
     rep_count_rule(ctx, R7)
